@@ -635,7 +635,7 @@ func exec(t *testing.T, ci sim.CaseI, choices []uint32, keepLog bool) *sim.Outco
 			}
 			f, err := modFileFor(m, reqs)
 			if err != nil {
-				panic(fmt.Sprintf("harness: cannot build module file: %v", err))
+				sim.Trouble("cannot build module file: %v", err)
 			}
 			files[m] = f
 		}
